@@ -13,7 +13,8 @@ REQUIRED_THEOREMS = ["gate_iff", "storage_agree", "lap_row_sums_zero", "interior
                      "orient2d_zero_iff_collinear", "orient2d_inside", "square_boundary_on_square", "square_boundary_distinct",
                      "square_boundary_cyclic_order", "square_boundary_length", "square_boundary_source",
                      "accepted_case_weighted_average", "circle_boundary_model", "circle_boundary_distinct", "circle_boundary_on_circle",
-                     "circle_boundary_convex_position", "circle_boundary_cyclic_order"]
+                     "circle_boundary_convex_position", "circle_boundary_cyclic_order",
+                     "gate_source", "circle_boundary_source", "custom_boundary_source"]
 TRUSTED = [
     "Lean 4.33.0 kernel; axioms ⊆ {propext, Classical.choice, Quot.sound}",
     "hand-written model Mouette/Model/Tutte.lean (_initialize_boundary, Laplacian triplets, free/border partition, exact rational "
@@ -28,7 +29,8 @@ TRUSTED = [
 ASSUMPTIONS = ["agreement model/implementation and fold-freeness are established on the cases explored in this run only",
                "floating point round-off is not modelled (tolerance 1e-9*scale+1e-12)"]
 RULE = ("triangulated disks (jittered/regular grids, strips, Delaunay, fans with 0-2 rings, convex polygons triangulated by chords, "
-        "chords + inserted interior vertices, grids with flipped edges; border lengths 3..60 incl. every residue mod 4) × "
+        "chords + inserted interior vertices, grids with flipped edges; border lengths 3..60 incl. every residue mod 4; integer / "
+        "binary32 coordinates; custom arrays f32/int/Fortran/read-only/strided; run twice / second embedder on the same mesh) × "
         "{circle, square, custom convex} × {uniform, cotan} × {vertex, corner}; plus non-disks (χ≠1) that must be rejected; "
         "non-trivial = disk with at least one interior vertex whose run succeeded")
 
@@ -72,25 +74,78 @@ def make_custom(rng, F):
 _CACHE = {}
 
 
-def _embed(mesh, case, corners):
+COORDS = ("float", "int", "f32")
+CREPS = ("f64", "f32", "int", "fortran", "readonly", "strided")
+HISTS = ("none", "rerun", "second", "second-otherweights", "attrs", "interleave")
+
+
+def _build_mesh(case):
+    """the disk with its coordinates in the representation case['coords'] (same VALUES: 'int' cases carry integer-valued
+    coordinates, 'f32' cases values that are exact in binary32)"""
+    import mouette as M, numpy as np
+    rep = case.get("coords", "float")
+    if rep == "float":
+        return G.build_surface(case)
+    d = M.mesh.RawMeshData()
+    if rep == "int":
+        d.vertices += [M.Vec(*[int(c) for c in v]) for v in case["V"]]
+    else:
+        d.vertices += [M.Vec(np.array(v, dtype=np.float32)) for v in case["V"]]
+    d.faces += [list(f) for f in case["F"]]
+    return M.mesh.SurfaceMesh(d)
+
+
+def _custom_array(mesh, case):
+    import numpy as np
+    pos = {int(v): (u, w) for v, u, w in case["custom"]}
+    rows = [pos[int(v)] for v in mesh.boundary_vertices]
+    crep = case.get("crep", "f64")
+    if crep == "f32": return np.array(rows, dtype=np.float32)
+    if crep == "int": return np.array([[int(a), int(b)] for a, b in rows], dtype=np.int64)
+    if crep == "fortran": return np.asfortranarray(np.array(rows, dtype=float))
+    if crep == "readonly":
+        a = np.array(rows, dtype=float); a.setflags(write=False); return a
+    if crep == "strided":
+        big = np.zeros((len(rows), 5), dtype=float); big[:, 1] = [r[0] for r in rows]; big[:, 3] = [r[1] for r in rows]
+        return big[:, 1::2]
+    return np.array(rows, dtype=float)
+
+
+def _other_disk():
+    """a small fixed disk used as 'another mesh' in the interleaving histories"""
+    V = [[0.0, 0.0, 0.0], [2.0, 0.0, 0.5], [2.5, 1.5, 0.0], [0.5, 2.0, 0.25], [1.0, 0.75, 1.0]]
+    F = [[0, 1, 4], [1, 2, 4], [2, 3, 4], [3, 0, 4]]
+    return {"V": V, "F": F}
+
+
+def _embed(mesh, case, corners, mode=None, cotan=None, between=None):
     import mouette as M, numpy as np
     kw = {}
-    if case["mode"] == "custom":
-        pos = {int(v): (u, w) for v, u, w in case["custom"]}
-        kw["custom_boundary"] = np.array([pos[int(v)] for v in mesh.boundary_vertices], dtype=float)
-    emb = M.parametrization.TutteEmbedding(mesh, boundary_mode=("square" if case["mode"] == "square" else "circle"),
+    mode = mode or case["mode"]
+    if cotan is not None:
+        case = dict(case, cotan=cotan)
+    carr = None
+    if mode == "custom":
+        carr = _custom_array(mesh, case)
+        kw["custom_boundary"] = carr
+    emb = M.parametrization.TutteEmbedding(mesh, boundary_mode=("square" if mode == "square" else "circle"),
                                            use_cotan=bool(case["cotan"]), verbose=False, save_on_corners=corners, **kw)
+    before = None if carr is None else np.array(carr, dtype=float, copy=True)
+    if between is not None:
+        between()       # something else happens between construction and run (state shared between instances?)
     emb.run()
     n = len(mesh.face_corners) if corners else len(mesh.vertices)
     uv = [(float(emb.uvs[i][0]), float(emb.uvs[i][1])) for i in range(n)]
-    return emb, uv
+    changed = carr is not None and not np.array_equal(before, np.array(carr, dtype=float))
+    return emb, uv, changed
 
 
 def _run(case):
     k = _key(case)
     if k in _CACHE: return _CACHE[k]
-    rec = {"err": None}
-    mesh = G.build_surface(case)
+    rec = {"err": None, "hist_findings": []}
+    hist = case.get("hist", "none")
+    mesh = _build_mesh(case)
     rec["nV"] = len(mesh.vertices)
     try:
         from mouette.processing.border import extract_border_cycle
@@ -101,10 +156,40 @@ def _run(case):
             rec["bnd"] = rec["bv"] if case["mode"] == "custom" else [int(v) for v in extract_border_cycle(mesh)[0]]
         except Exception:  # noqa  (non-disks: the gate fires first, the list is irrelevant)
             rec["bnd"] = rec["bv"]
-        emb, uv = _embed(mesh, case, bool(case["corners"]))
+        between = None
+        if hist == "second":
+            # another embedder (other target, same storage) has already written its `uv_coords` on this mesh object
+            _embed(mesh, case, bool(case["corners"]), mode=case.get("hist_mode", "circle"))
+        if hist == "second-otherweights":
+            # ... with the OTHER weights (a cotangent run leaves the persistent `cotan` attribute on the mesh)
+            hm = case.get("hist_mode", "circle")
+            _embed(mesh, case, bool(case["corners"]), mode=(hm if case["mode"] != "custom" else "custom"), cotan=not bool(case["cotan"]))
+        if hist == "attrs":
+            # the mesh already carries the persistent attributes other algorithms leave behind
+            from mouette import attributes as A
+            A.cotangent(mesh); A.face_area(mesh); A.corner_angles(mesh)
+        if hist == "interleave":
+            def between():
+                import mouette as M
+                o = _other_disk(); om = G.build_surface(o)
+                M.parametrization.TutteEmbedding(om, boundary_mode="square", use_cotan=not bool(case["cotan"]), verbose=False,
+                                                 save_on_corners=not bool(case["corners"])).run()
+        emb, uv, changed = _embed(mesh, case, bool(case["corners"]), between=between)
+        if changed:
+            rec["hist_findings"].append(("input/custom-boundary-mutated", "run() modified the caller's custom_boundary array", ""))
+        if hist == "rerun":
+            emb.run()
+            n = len(uv)
+            uv2 = [(float(emb.uvs[i][0]), float(emb.uvs[i][1])) for i in range(n)]
+            if uv2 != uv:
+                rec["hist_findings"].append(("history/rerun/differs", "a second run() of the same embedder gives other coordinates than the first", ""))
+            uv = uv2
         rec["uv"] = uv
         fm = emb.flat_mesh
         rec["flat"] = [tuple(float(c) for c in fm.vertices[v]) for v in range(rec["nV"])]
+        if [[int(v) for v in f] for f in mesh.faces] != [list(f) for f in case["F"]] or \
+                [tuple(float(c) for c in p) for p in mesh.vertices] != [tuple(float(c) for c in p) for p in case["V"]]:
+            rec["hist_findings"].append(("input/mesh-mutated", "the input mesh (vertices or faces) was modified by the embedder", ""))
         if case["cotan"]:
             from mouette.attributes import cotangent
             cot = cotangent(mesh)
@@ -114,8 +199,8 @@ def _run(case):
         rec["err"] = _errname(e); rec["msg"] = repr(e)[:200]
     if rec["err"] is None:
         try:
-            mesh2 = G.build_surface(case)
-            _, uv2 = _embed(mesh2, case, not bool(case["corners"]))
+            mesh2 = _build_mesh(case)
+            _, uv2, _ = _embed(mesh2, case, not bool(case["corners"]))
             rec["uv_other"] = uv2
         except Exception as e:  # noqa
             rec["err_other"] = _errname(e)
@@ -194,6 +279,8 @@ def oracle(case):
     st = stats(case)
     rec = _run(case)
     kind = f"{case['mode']}/{'cotan' if case['cotan'] else 'uniform'}"
+    for k_, v_, d_ in (("coords", "float", "coords:"), ("crep", "f64", "crep:"), ("hist", "none", "hist:")):
+        if case.get(k_, v_) != v_: kind += "/" + d_ + case[k_]
 
     def bad(key, what, detail=""):
         out.append({"key": f"C17/{key}", "what": what, "detail": str(detail)[:400]})
@@ -213,6 +300,8 @@ def oracle(case):
     if rec["err"]:
         bad(f"run/raises/{rec['err']}/{kind}", f"TutteEmbedding.run raised {rec['err']} on a triangulated disk", rec.get("msg"))
         return out
+    for (hk, hw, hd) in rec.get("hist_findings", []):
+        bad(hk, hw, hd)
     F = case["F"]
     uv = vertex_uv(case, rec)
     if any(p is None or not (math.isfinite(p[0]) and math.isfinite(p[1])) for p in uv):
@@ -242,13 +331,16 @@ def oracle(case):
             bad("border/custom-not-respected", "a border vertex is not at its prescribed custom position", "")
     # 2. interior vertices at the weighted average of their neighbours
     w = own_weights(case)
+    # binary32 coordinates: the library computes the cotangents in binary32 (relative error ~6e-8 times the conditioning of
+    # cot); the statement is about exact values, round-off is not modelled (T6) -> tolerance at binary32 level there
+    rtol = 2e-5 if (case.get("coords") == "f32" and case["cotan"]) else 1e-9
     minw = min([w[i][j] for i in w for j in w[i] if i not in bset or j not in bset] or [1.0])
     for i in range(len(uv)):
         if i in bset: continue
         rx = sum(wij * (uv[j][0] - uv[i][0]) for j, wij in w[i].items())
         ry = sum(wij * (uv[j][1] - uv[i][1]) for j, wij in w[i].items())
         scale = sum(abs(wij) * (abs(uv[j][0]) + abs(uv[j][1]) + abs(uv[i][0]) + abs(uv[i][1])) for j, wij in w[i].items())
-        if max(abs(rx), abs(ry)) > 1e-9 * scale + 1e-12:
+        if max(abs(rx), abs(ry)) > rtol * scale + 1e-12:
             bad(f"interior/not-weighted-average/{kind}", "an interior vertex is not at the weighted average of its neighbours",
                 f"vertex {i} residual {(rx, ry)}"); break
     # 3. every triangle has the same strict orientation (exact)
@@ -384,7 +476,8 @@ def nontrivial(case, obs):
 def classify(case, obs):
     st = stats(case)
     ks = [f"mode:{case['mode']}", f"weights:{'cotan' if case['cotan'] else 'uniform'}", f"storage:{'corner' if case['corners'] else 'vertex'}",
-          "fam:" + case.get("tag", "?")]
+          "fam:" + case.get("tag", "?"), "coords:" + case.get("coords", "float"), "hist:" + case.get("hist", "none")]
+    if case["mode"] == "custom": ks.append("crep:" + case.get("crep", "f64"))
     if is_disk(case):
         n = len(border_cycle(case["F"]))
         ks += [f"border%4:{n % 4}", "border:" + ("3" if n == 3 else "<=8" if n <= 8 else "<=20" if n <= 20 else ">20"),
@@ -402,7 +495,7 @@ def classify(case, obs):
 
 def describe(case):
     return {"tag": case.get("tag"), "nV": len(case["V"]), "nF": len(case["F"]), "mode": case["mode"], "cotan": case["cotan"],
-            "corners": case["corners"]}
+            "corners": case["corners"], "coords": case.get("coords", "float"), "crep": case.get("crep"), "hist": case.get("hist", "none")}
 
 
 def cases(rng, tier):
@@ -418,6 +511,31 @@ def cases(rng, tier):
                 c = {"V": d["V"], "F": d["F"], "mode": mode, "cotan": cotan, "corners": corners, "tag": d["tag"]}
                 if mode == "custom": c["custom"] = custom
                 yield c
+    # representations (integer / binary32 coordinates, custom array dtypes and layouts) and histories (Part A of round 3)
+    for k in range(40 if tier == "quick" else 300):
+        d = CG.tri_disk(rng, rng.choice([10, 30, maxf]))
+        base = {"V": d["V"], "F": d["F"], "tag": d["tag"]}
+        # integer-valued coordinates: scale by 4 and round; keep only well shaped results
+        Vi = [[float(round(4 * c)) for c in v] for v in d["V"]]
+        sti = G.surface_stats(len(Vi), d["F"])
+        if len({tuple(v) for v in Vi}) == len(Vi) and CG.min_angle_deg(Vi, d["F"]) >= 4.0:
+            yield dict(base, V=Vi, coords="int", mode=rng.choice(["circle", "square"]), cotan=rng.random() < 0.6, corners=rng.random() < 0.5)
+        yield dict(base, coords="f32", mode=rng.choice(["circle", "square"]), cotan=rng.random() < 0.6, corners=rng.random() < 0.5)
+        custom = make_custom(rng, d["F"])
+        crep = rng.choice(CREPS[1:])
+        if crep == "int":   # integer custom positions: the dyadic positions (denominator 2^20) scaled to integers
+            custom = [[v, float(round(u * (1 << 20))), float(round(w * (1 << 20)))] for v, u, w in custom]
+        yield dict(base, mode="custom", custom=custom, crep=crep, cotan=rng.random() < 0.5, corners=rng.random() < 0.5)
+        hist = rng.choice(HISTS[1:])
+        mode = rng.choice(MODES)
+        c = dict(base, mode=mode, cotan=rng.random() < 0.5, corners=rng.random() < 0.5, hist=hist)
+        if mode == "custom": c["custom"] = make_custom(rng, d["F"])
+        if hist in ("second", "second-otherweights"): c["hist_mode"] = rng.choice(["circle", "square"])
+        yield c
+        # weights histories on strongly non-equilateral geometry: cotangent run then uniform run on the same mesh and back
+        c2 = dict(base, mode=rng.choice(["circle", "square"]), cotan=(k % 2 == 0), corners=rng.random() < 0.5,
+                  hist=rng.choice(["second-otherweights", "attrs"]), hist_mode=rng.choice(["circle", "square"]))
+        yield c2
     for _ in range(40 if tier == "quick" else 200):
         s = CG.connected_tri_surface(rng, 30)
         if s["stats"]["chi"] == 1 and s["stats"]["loops"] == 1: continue
@@ -538,9 +656,111 @@ def _translate_square():
     return sha
 
 
+def _sym_expr(node, names):
+    """arithmetic over the given names (name -> Lean term) and numeric literals -> Lean Rat term"""
+    import ast
+    from .. import translate as T
+    if isinstance(node, ast.Constant) and isinstance(node.value, (int, float)) and not isinstance(node.value, bool):
+        fr = Fraction(node.value)
+        return f"(({fr.numerator} : Rat) / ({fr.denominator} : Rat))" if fr.denominator != 1 else f"({fr.numerator} : Rat)"
+    if isinstance(node, ast.Name) and node.id in names: return names[node.id]
+    ops = {ast.Add: "+", ast.Sub: "-", ast.Mult: "*", ast.Div: "/"}
+    if isinstance(node, ast.BinOp) and type(node.op) in ops:
+        return f"({_sym_expr(node.left, names)} {ops[type(node.op)]} {_sym_expr(node.right, names)})"
+    raise T.TranslateError(f"unsupported expression: {ast.dump(node)[:100]}")
+
+
+def _translate_rest():
+    """CIRCLE and CUSTOM branches of _initialize_boundary, the Euler gate and the choice of the border order in run()"""
+    import ast
+    from .. import translate as T
+    tree, _ = T.load("mouette/processing/parametrization/tutte.py")
+    fn = T.find_def(tree, "TutteEmbedding._initialize_boundary")
+
+    def branch(attr):
+        for node in ast.walk(fn):
+            if isinstance(node, ast.If) and isinstance(node.test, ast.Compare) and len(node.test.comparators) == 1 \
+                    and isinstance(node.test.ops[0], ast.Eq) and isinstance(node.test.comparators[0], ast.Attribute) \
+                    and node.test.comparators[0].attr == attr:
+                return node
+        raise T.TranslateError(f"{attr} branch of _initialize_boundary not found")
+    # --- CUSTOM: return self._custom_bnd[:,0], self._custom_bnd[:,1]
+    cb = branch("CUSTOM").body
+    ok = len(cb) == 1 and isinstance(cb[0], ast.Return) and isinstance(cb[0].value, ast.Tuple) and len(cb[0].value.elts) == 2
+    cols = []
+    if ok:
+        for e in cb[0].value.elts:
+            ok = ok and isinstance(e, ast.Subscript) and isinstance(e.value, ast.Attribute) and e.value.attr == "_custom_bnd" \
+                and isinstance(e.slice, ast.Tuple) and len(e.slice.elts) == 2 and isinstance(e.slice.elts[0], ast.Slice) \
+                and e.slice.elts[0].lower is None and e.slice.elts[0].upper is None and e.slice.elts[0].step is None \
+                and isinstance(e.slice.elts[1], ast.Constant) and isinstance(e.slice.elts[1].value, int)
+            if ok: cols.append(e.slice.elts[1].value)
+    if not ok: raise T.TranslateError("CUSTOM branch: `return self._custom_bnd[:,a], self._custom_bnd[:,b]` not recognised")
+    # --- CIRCLE: for i in range(n): rt = cmath.rect(R, ANGLE); U[i] = rt.real; V[i] = rt.imag
+    cc = branch("CIRCLE").body
+    if not (len(cc) == 1 and isinstance(cc[0], ast.For) and isinstance(cc[0].target, ast.Name) and isinstance(cc[0].iter, ast.Call)
+            and getattr(cc[0].iter.func, "id", None) == "range" and len(cc[0].iter.args) == 1 and len(cc[0].body) == 3):
+        raise T.TranslateError("CIRCLE branch: `for i in range(..)` with three statements not recognised")
+    ivar = cc[0].target.id
+    rng_hi = T.lean_int_expr(cc[0].iter.args[0])
+    a0, a1, a2 = cc[0].body
+    if not (isinstance(a0, ast.Assign) and isinstance(a0.targets[0], ast.Name) and isinstance(a0.value, ast.Call)
+            and isinstance(a0.value.func, ast.Attribute) and a0.value.func.attr == "rect" and len(a0.value.args) == 2):
+        raise T.TranslateError("CIRCLE branch: `rt = cmath.rect(r, angle)` not recognised")
+    rt = a0.targets[0].id
+    radius = _sym_expr(a0.value.args[0], {})
+    angle = _sym_expr(a0.value.args[1], {"pi": "p", "n": "(n : Rat)", ivar: "(i : Rat)"})
+    parts = {}
+    for st in (a1, a2):
+        if not (isinstance(st, ast.Assign) and isinstance(st.targets[0], ast.Subscript) and isinstance(st.targets[0].value, ast.Name)
+                and st.targets[0].value.id in ("U", "V") and isinstance(st.targets[0].slice, ast.Name) and st.targets[0].slice.id == ivar
+                and isinstance(st.value, ast.Attribute) and isinstance(st.value.value, ast.Name) and st.value.value.id == rt
+                and st.value.attr in ("real", "imag")):
+            raise T.TranslateError("CIRCLE branch: `U[i] = rt.real` / `V[i] = rt.imag` not recognised")
+        parts[st.targets[0].value.id] = st.value.attr
+    if set(parts) != {"U", "V"}: raise T.TranslateError("CIRCLE branch: U and V are not both assigned")
+    # --- run(): gate and border order
+    run = T.find_def(tree, "TutteEmbedding.run")
+    gate = None
+    for node in run.body:
+        if isinstance(node, ast.If) and isinstance(node.test, ast.Compare) and isinstance(node.test.left, ast.Call) \
+                and getattr(node.test.left.func, "id", None) == "euler_characteristic" and len(node.test.ops) == 1 \
+                and isinstance(node.test.comparators[0], ast.Constant) and isinstance(node.test.comparators[0].value, int) \
+                and len(node.body) == 1 and isinstance(node.body[0], ast.Raise):
+            opn = {ast.NotEq: "!=", ast.Eq: "==", ast.Gt: ">", ast.Lt: "<", ast.GtE: ">=", ast.LtE: "<="}.get(type(node.test.ops[0]))
+            if opn is None: raise T.TranslateError("gate: comparison operator not recognised")
+            gate = (opn, node.test.comparators[0].value)
+    if gate is None or run.body.index(next(n for n in run.body if isinstance(n, ast.If))) != 0 and not isinstance(run.body[0], ast.Expr):
+        raise T.TranslateError("run(): `if euler_characteristic(self.mesh) <op> <int>: raise` not found as the first statement")
+    bsrc = None
+    for node in run.body:
+        if isinstance(node, ast.If) and isinstance(node.test, ast.Compare) and isinstance(node.test.left, ast.Attribute) \
+                and node.test.left.attr == "_bnd_mode" and isinstance(node.test.ops[0], ast.Eq) \
+                and isinstance(node.test.comparators[0], ast.Attribute) and node.test.comparators[0].attr == "CUSTOM" \
+                and len(node.body) == 1 and len(node.orelse) == 1:
+            b, o = node.body[0], node.orelse[0]
+            if isinstance(b, ast.Assign) and isinstance(b.value, ast.Attribute) and isinstance(o, ast.Assign) and isinstance(o.value, ast.Call):
+                bsrc = (b.value.attr, getattr(o.value.func, "id", None))
+    if bsrc is None: raise T.TranslateError("run(): choice of bndInds (CUSTOM -> attribute, else -> call) not recognised")
+    leanop = {"!=": "!=", "==": "==", ">": ">", "<": "<", ">=": "≥", "<=": "≤"}[gate[0]]
+    rej = f"decide (chi {leanop} {gate[1]})" if gate[0] not in ("!=", "==") else f"(chi {leanop} {gate[1]})"
+    body = ("namespace Mouette.Generated.C17B\n\n"
+            f"/-- `if euler_characteristic(self.mesh) {gate[0]} {gate[1]}: raise` -/\ndef rejects (chi : Int) : Bool := {rej}\n\n"
+            f"/-- CUSTOM: columns of `custom_boundary` returned as (U, V) -/\ndef customCols : Nat × Nat := ({cols[0]}, {cols[1]})\n\n"
+            f"/-- CIRCLE: `for {ivar} in range({rng_hi})` -/\ndef circleCount (n : Nat) : Nat := {rng_hi}\n\n"
+            f"/-- first argument of `cmath.rect` -/\ndef circleRadius : Rat := {radius}\n\n"
+            f"/-- second argument of `cmath.rect`, with `pi` as the parameter `p` -/\ndef circleAngle (p : Rat) (n i : Nat) : Rat := {angle}\n\n"
+            f"/-- which part of the complex number goes to U and to V -/\ndef circleParts : String × String := (\"{parts['U']}\", \"{parts['V']}\")\n\n"
+            f"/-- border order used for the rows: CUSTOM -> `mesh.{bsrc[0]}`, otherwise `{bsrc[1]}(mesh)` -/\n"
+            f"def bndSource : String × String := (\"{bsrc[0]}\", \"{bsrc[1]}\")\n\nend Mouette.Generated.C17B\n")
+    _, sha = T.write_generated("C17TutteB", body)
+    return sha
+
+
 def translate():
     from .. import translate as T
-    return [T.site("tutte.py: TutteEmbedding._initialize_boundary (SQUARE branch: corners, ranges, affine expressions)", _translate_square)]
+    return [T.site("tutte.py: TutteEmbedding._initialize_boundary (SQUARE branch: corners, ranges, affine expressions)", _translate_square),
+            T.site("tutte.py: _initialize_boundary CIRCLE + CUSTOM branches, run(): Euler gate and border order", _translate_rest)]
 
 
 MANIFEST = {
@@ -557,7 +777,11 @@ MANIFEST = {
                    "circle, pairwise distinct, in strictly convex position (each is the unique maximiser of a linear functional and lies on "
                    "no segment between two others) and any three taken in border order are strictly counter-clockwise; the driver's exact "
                    "residual check R1 implies that every free vertex is at the weighted average of its neighbours for every border data "
-                   "(accepted_case_weighted_average), so interior_is_weighted_average applies to every case the driver accepts. "
+                   "(accepted_case_weighted_average), so interior_is_weighted_average applies to every case the driver accepts; the CIRCLE "
+                   "and CUSTOM branches, the Euler gate and the choice of the border order are re-translated from tutte.py on every run "
+                   "with bridge theorems (gate_source, circle_boundary_source, custom_boundary_source). The property is also checked on "
+                   "histories (run() twice, a second embedder on a mesh that already carries uv_coords) and representations (integer and "
+                   "binary32 coordinates; custom arrays of dtype float32/int64, Fortran-ordered, read-only, strided), by value. "
                    "NOT proved - checked on every run: Tutte/Floater (every triangle has the same strict orientation: exact orient2d on "
                    "Fractions of the output floats, uniform weights always, cotangent weights when non-negative, square target when no "
                    "triangle has its three vertices on one side); that the solver's output solves the system (exact model solution compared "
